@@ -34,7 +34,8 @@ if r.returncode == 0:
     subprocess.run(["git", "-C", "/repo", "apply", use], check=True)
     try:
         for c in [prop] + extra:
-            p = subprocess.run(["/verif/bin/check", c], capture_output=True, text=True)
+            p = subprocess.run(["/verif/bin/check", c], capture_output=True, text=True,
+                               env=dict(os.environ, VERIF_EVIDENCE_DIR="/var/tmp/vrl-verif.adopt.evidence"))
             lines = [l for l in p.stdout.splitlines() if l.startswith("VIOLATION") or l.startswith("  R") and "instances=" not in l or "FAIL-CLOSED" in l]
             results[c] = {"rc": p.returncode, "report": lines[:12]}
     finally:
